@@ -8,6 +8,9 @@ Decided (E3 on tensor.symmetrize / tensor.issymmetric and the Kruskal versions):
   EXACT  symmetry is decided by exact comparisons (no allclose / isclose in these functions)
   ALLGRP in the symmetry tests the verdict of every group / pair of modes reaches the answer: no loop overwrites a
          plain verdict variable on every iteration and reads it only after the loop ("the last group decides")
+  BCAST    no element-wise operation pairs a column `E[:, k]` of an index matrix with the matrix `E` itself (numpy lines the column up with
+           the LAST axis: groups are compared with each other); zero sites on the pinned tree, fixtures
+  CARRY    symmetrisation over several groups reads the running copy inside the group loop, never the receiver's original data
   SIGNPAIR in ktensor.symmetrize every negation of a factor column (sign alignment against the first factor, repair of
          negative weights for odd order) is paired in the same block, with the same column selector, with a NEGATION of
          the weight (a toggle): overwriting the weight with a constant loses the sign after a second flip
@@ -24,6 +27,86 @@ from .. import guards as G
 from . import eo_common as E
 
 FUNCS = ["tensor.tensor.symmetrize", "tensor.tensor.issymmetric", "ktensor.ktensor.symmetrize", "ktensor.ktensor.issymmetric"]
+
+
+def _column_vs_matrix(fn: ast.AST):
+    """Element-wise operations whose one operand is the other with `E[:, k]` in place of `E` (sz[g[:, 0]] == sz[g]): the column has one
+    axis less, so numpy lines it up with the LAST axis of the matrix - rows are compared with the wrong group unless the matrix is
+    square (E[:, [k]] / E[:, k:k+1] / E[:, k][:, None] keep the axis).  Yields (node, column expression)."""
+    import copy
+
+    class Widen(ast.NodeTransformer):
+        def __init__(self):
+            self.hit = None
+
+        def visit_Subscript(self, n):
+            self.generic_visit(n)
+            sl = n.slice
+            if isinstance(sl, ast.Tuple) and len(sl.elts) == 2 and isinstance(sl.elts[0], ast.Slice) and sl.elts[0].lower is None \
+                    and sl.elts[0].upper is None and sl.elts[0].step is None and isinstance(sl.elts[1], ast.Constant) and isinstance(sl.elts[1].value, int):
+                self.hit = n
+                return n.value
+            return n
+    for n in ast.walk(fn):
+        pairs = []
+        if isinstance(n, ast.Compare) and len(n.ops) == 1:
+            pairs = [(n.left, n.comparators[0]), (n.comparators[0], n.left)]
+        elif isinstance(n, ast.BinOp) and isinstance(n.op, (ast.Add, ast.Sub, ast.Mult, ast.Div)):
+            pairs = [(n.left, n.right), (n.right, n.left)]
+        for a, b in pairs:
+            w = Widen()
+            widened = w.visit(copy.deepcopy(a))
+            if w.hit is not None and ast.unparse(widened) == ast.unparse(b):
+                yield n, w.hit
+
+
+BCAST_FIXTURE = ("def f(sz, grps):\n    return bool(np.all(sz[grps[:, 0]] == sz[grps]))\n",
+                 "def f(sz, grps):\n    return bool(np.all(sz[grps[:, :1]] == sz[grps]))\n")
+
+
+def bcast(prog: Program, res: Result) -> None:
+    if len(list(_column_vs_matrix(ast.parse(BCAST_FIXTURE[0])))) != 1 or list(_column_vs_matrix(ast.parse(BCAST_FIXTURE[1]))):
+        raise AnalysisError("BCAST fixtures not recognised")
+    for short in FUNCS:
+        fi = prog.func(short)
+        for node, col in _column_vs_matrix(fi.node):
+            res.bad("BCAST", short, "a column of an index matrix is compared with the matrix along its own axis",
+                    prog.loc(fi, node),
+                    f"`{ast.unparse(node)[:70]}`: `{ast.unparse(col)}` has one axis less than the matrix and is lined up with its LAST axis, so the "
+                    "entries of one group are compared with another group's (and the shapes do not even fit unless groups x members is square); "
+                    "keep the axis with [:, [k]] / [:, k:k+1]")
+
+
+def carried(prog: Program, res: Result) -> None:
+    """Symmetrising over several mode groups works on ONE running copy of the data: group k+1 averages what group k produced.  A local that is
+    initialised from the receiver's data before the group loop, re-assigned inside it and returned after it is such a running copy; reading the
+    receiver's own data (as values) inside the loop discards the work of the earlier groups."""
+    for short in FUNCS:
+        fi = prog.func(short)
+        me = fi.params()[0] if fi.params() else "self"
+        for loop in [n for n in ast.walk(fi.node) if isinstance(n, ast.For)]:
+            inside = list(ast.walk(loop))
+            assigned_in = {t.id for n in inside if isinstance(n, ast.Assign) for t in n.targets if isinstance(t, ast.Name)}
+            for w in sorted(assigned_in):
+                init = [a for a in ast.walk(fi.node) if isinstance(a, ast.Assign) and a not in inside and a.lineno < loop.lineno
+                        and any(isinstance(t, ast.Name) and t.id == w for t in a.targets) and f"{me}.data" in ast.unparse(a.value)]
+                returned = any(isinstance(r, ast.Return) and r not in inside and r.value is not None
+                               and any(isinstance(x, ast.Name) and x.id == w for x in ast.walk(r.value)) for r in ast.walk(fi.node))
+                if not init or not returned:
+                    continue
+                parents = {}
+                for x in inside:
+                    for c in ast.iter_child_nodes(x):
+                        parents[id(c)] = x
+                stale = [x for x in inside if isinstance(x, ast.Attribute) and x.attr == "data" and isinstance(x.value, ast.Name) and x.value.id == me
+                         and not (isinstance(parents.get(id(x)), ast.Attribute) and parents[id(x)].attr in ("size", "shape", "ndim", "dtype"))]
+                desc = f"inside the group loop the values come from the running copy `{w}`, not from the receiver's own data"
+                if stale:
+                    res.bad("CARRY", short, desc, prog.loc(fi, stale[0]),
+                            f"`{me}.data` is read inside the loop that updates `{w}`: each group starts again from the original tensor, so only the "
+                            "last group that needed work is symmetrised")
+                else:
+                    res.ok("CARRY", short, desc, prog.loc(fi, loop))
 
 
 def check(prog: Program, res: Result, tier: str) -> None:
@@ -68,6 +151,8 @@ def check(prog: Program, res: Result, tier: str) -> None:
         res.ok("GRP", fi.short, "answers False for groups of unequal mode sizes", prog.loc(fi), nontrivial=False)
 
     sign_pairs(prog, res)
+    bcast(prog, res)
+    carried(prog, res)
     # every iteration's verdict reaches the answer
     for short in ("tensor.tensor.issymmetric", "ktensor.ktensor.issymmetric"):
         fi = prog.func(short)
